@@ -485,3 +485,44 @@ Proof.
   - destruct Hs as [_ Hi']. constructor; [intros _; apply solvent_of_inv; exact Hi'|].
     apply (IH (mkHst12 s1 (next_store q (h12_store s) o)) Hi' Hr).
 Qed.
+
+(* ---------------------------------------------------------------- histories with parameter edits *)
+
+(** every step of the history comes with the parameters in force when it runs *)
+Fixpoint run_obs12v (fx : bool) (s : hst12) (ops : list (oparams * op)) : list (oparams * op * sobs * list avote) :=
+  match ops with
+  | [] => []
+  | (q, o) :: r =>
+      match hstep12 fx q s o with
+      | HPanic => [(q, o, panic_obs, [])]
+      | HOk s' e => (q, o, obs_of (h12_os s') e, h12_store s') :: run_obs12v fx s' r
+      end
+  end.
+
+Theorem history12v_P : forall ops s e0,
+  inv (h12_os s) -> Forall (fun x => wf_op (snd x)) ops ->
+  P_history12v (obs_of (h12_os s) e0) (h12_store s) (run_obs12v true s ops).
+Proof.
+  induction ops as [|[q o] ops IH]; intros s e0 Hi Hw; [exact I|].
+  inversion Hw as [|? ? Ho Hr]; subst. simpl in Ho. cbn [run_obs12v]. unfold hstep12.
+  pose proof (step_P q (h12_os s) e0 (eff_op (h12_store s) o) Hi (wf_op_eff _ _ Ho)) as Hs.
+  destruct (step true q (h12_os s) (eff_op (h12_store s) o)) as [|s1 e].
+  - cbn [P_history12v]. split; [|exact I]. split; [|intro Hc; discriminate].
+    destruct o as [st svs h| |]; simpl in *; try contradiction. intro Hd. rewrite Hd in Hs. discriminate.
+  - destruct Hs as [HP Hi']. cbn [P_history12v]. split.
+    + split; [exact HP | intros _; reflexivity].
+    + apply (IH (mkHst12 s1 (next_store q (h12_store s) o)) e Hi' Hr).
+Qed.
+
+Theorem history12v_solvent : forall ops s,
+  inv (h12_os s) -> Forall (fun x => wf_op (snd x)) ops ->
+  Forall (fun x => so_panic (snd (fst x)) = false -> solvent (snd (fst x))) (run_obs12v true s ops).
+Proof.
+  induction ops as [|[q o] ops IH]; intros s Hi Hw; [constructor|].
+  inversion Hw as [|? ? Ho Hr]; subst. simpl in Ho. cbn [run_obs12v]. unfold hstep12.
+  pose proof (step_P q (h12_os s) (mkEff [] []) (eff_op (h12_store s) o) Hi (wf_op_eff _ _ Ho)) as Hs.
+  destruct (step true q (h12_os s) (eff_op (h12_store s) o)) as [|s1 e].
+  - constructor; [simpl; discriminate | constructor].
+  - destruct Hs as [_ Hi']. constructor; [intros _; apply solvent_of_inv; exact Hi'|].
+    apply (IH (mkHst12 s1 (next_store q (h12_store s) o)) Hi' Hr).
+Qed.
